@@ -138,7 +138,7 @@ class Engine:
 
     def find_def(self, key):
         """key = 'pkg.mod:Class.func' or 'pkg.mod:func' -> (FunctionDef, source segment)."""
-        module, qual = key.split(':')
+        module, qual = key.split('#')[0].split(':')
         src, tree = self.module_ast(module)
         parts = qual.split('.')
         body = tree.body
@@ -172,13 +172,18 @@ class Engine:
             return
         name = stable_name or ('%s:%s%s@L%s' % (self.cur_fn.split(':')[1], kind,
                                                  (':' + tag) if tag else '', line))
+        for old in self.results:
+            if old.name == name and old.verdict == 'refuted':
+                st.assume(goal)     # already refuted on another path: one counterexample is enough
+                return
         verdict, backend, ms, info = solve.prove(st.pc, goal)
         model = None
         if verdict == 'refuted':
             model = self.model_to_json(info, st)
             info = None
         self.merge_result(ObResult(name, kind, self.cur_fn, line, verdict, backend, ms, info,
-                                   model, prop=self.cur_contract.prop if self.cur_contract else (),
+                                   model, prop=(getattr(self, 'clause_props', None) or
+                                                (self.cur_contract.prop if self.cur_contract else ())),
                                    text=text))
         st.assume(goal)
 
@@ -246,6 +251,9 @@ class Engine:
         k, arr, t = self.heap_arr(st, ref.t.cls, field)
         v = Val(t, z3.Select(arr, ref.e))
         self.assume_wf(st, v)
+        inv = self.m.elem_inv.get(k)
+        if inv is not None:
+            v.py = ('eleminv', inv)
         return v
 
     def assume_wf(self, st, v):
@@ -584,6 +592,18 @@ class Engine:
                 if name == 'forall':
                     return mk_bool(z3.ForAll(bound, z3.Implies(guard, body)))
                 return mk_bool(z3.Exists(bound, z3.And(guard, body)))
+            if name == 'forall_ref':
+                # forall_ref('Class', lambda p: body): p ranges over all allocated references
+                cls = node.args[0].value
+                lam = node.args[1]
+                names = [a.arg for a in lam.args.args]
+                bound = [z3.Int(fresh_name(n)) for n in names]
+                extra = dict(env.extra)
+                for n, b in zip(names, bound):
+                    extra[n] = Val(TRef(cls), b)
+                body = self.truthy(self.sev(lam.body, SpecEnv(st, extra, env.old)))
+                guard = z3.And(*[b >= 0 for b in bound])
+                return mk_bool(z3.ForAll(bound, z3.Implies(guard, body)))
             if name == 'len':
                 return self.length(self.sev(node.args[0], env))
             if name == 'same':
@@ -849,7 +869,11 @@ class Engine:
             n = list_len(base)
             if line is not None:
                 self.prove(st, z3.And(-n <= idx.e, idx.e < n), 'noraise', line, 'list-index')
-            return Val(base.t.elem, z3.Select(list_arr(base), self.norm_index(n, idx.e)))
+            el = Val(base.t.elem, z3.Select(list_arr(base), self.norm_index(n, idx.e)))
+            if isinstance(base.py, tuple) and base.py and base.py[0] == 'eleminv':
+                # declared data-structure invariant of this field, instantiated at the element read
+                st.assume(self.spec(base.py[1], st, {'x': el}, None))
+            return el
         raise OutOfSubset('subscript on %s' % base.t, node)
 
     def clamp(self, n, v, default):
@@ -1004,36 +1028,90 @@ class Engine:
 
     PY_WS = [chr(i) for i in range(0x110000) if chr(i).isspace()]
 
+    exact_strip = False
+
+    def in_charset(self, c, cs):
+        """c (a one-character string term) is one of the characters cs."""
+        return z3.Or(*[c == z3.StringVal(x) for x in cs])
+
     def strip_like(self, st, s, chars, left, right):
-        """Exact specification of str.strip/lstrip/rstrip (assumption A3): s = p ++ r ++ q with
-        p, q in C*, r not starting / ending with a C character (on the stripped sides)."""
+        """str.strip/lstrip/rstrip as an uninterpreted function of its argument plus instance
+        facts.  Default ("light") facts are sound consequences of the exact specification
+        (assumption A3): the result is a suffix/prefix/substring of s, its exposed end
+        characters are not strippable, an unstrippable end leaves s unchanged, and the three
+        variants over the same character set are empty together (blank(s)).
+        With exact_strip the exact characterisation s = p ++ r ++ q, p,q in C*, is added."""
         cs = self.PY_WS if chars is None else list(chars)
-        C = self.ws_re(cs)
-        key = ('strip', str(s.e), tuple(cs), left, right)
-        cache = st.ghost.setdefault('__strip_cache__', {})
-        if key in cache:
-            return cache[key]
-        fname = 'strip_%s%s_%s' % ('l' if left else '', 'r' if right else '',
-                                   'ws' if chars is None else ''.join('%x_' % ord(c) for c in cs))
+        tag = 'ws' if chars is None else ''.join('%x_' % ord(c) for c in cs)
+        fname = 'strip_%s%s_%s' % ('l' if left else '', 'r' if right else '', tag)
         if fname not in self.m.ufuncs:
             self.m.ufuncs[fname] = ([STR], STR)
+        bname = 'blank_' + tag
+        if bname not in self.m.ufuncs:
+            self.m.ufuncs[bname] = ([STR], BOOL)
         r = self.call_ufunc(fname, [s])
-        p = z3.String(fresh_name('sp')) if left else z3.StringVal('')
-        q = z3.String(fresh_name('sq')) if right else z3.StringVal('')
-        st.assume(s.e == z3.Concat(p, r.e, q))
+        key = (fname, s.e.get_id(), self.exact_strip)
+        cache = st.ghost.get('__strip_cache__', frozenset())
+        if key in cache:
+            return r
+        st.ghost['__strip_cache__'] = cache | {key}
+        blank = self.call_ufunc(bname, [s]).e
+        n = z3.Length(s.e)
+        rn = z3.Length(r.e)
+        st.assume((rn == 0) == blank)
+        st.assume(z3.Implies(n == 0, blank))
+        st.assume(rn <= n)
+        first = z3.SubString(r.e, 0, 1)
+        last = z3.SubString(r.e, rn - 1, 1)
+        if left and not right:
+            st.assume(z3.SuffixOf(r.e, s.e))
+        elif right and not left:
+            st.assume(z3.PrefixOf(r.e, s.e))
+        else:
+            st.assume(z3.Contains(s.e, r.e))
         if left:
-            st.assume(z3.InRe(p, z3.Star(C)))
-            st.assume(z3.Or(z3.Length(r.e) == 0, z3.Not(z3.InRe(z3.SubString(r.e, 0, 1), C))))
+            st.assume(z3.Or(rn == 0, z3.Not(self.in_charset(first, cs))))
+            if not right:
+                st.assume(z3.Implies(z3.And(n > 0, z3.Not(self.in_charset(z3.SubString(s.e, 0, 1), cs))), r.e == s.e))
         if right:
-            st.assume(z3.InRe(q, z3.Star(C)))
-            st.assume(z3.Or(z3.Length(r.e) == 0,
-                            z3.Not(z3.InRe(z3.SubString(r.e, z3.Length(r.e) - 1, 1), C))))
+            st.assume(z3.Or(rn == 0, z3.Not(self.in_charset(last, cs))))
+            if not left:
+                st.assume(z3.Implies(z3.And(n > 0, z3.Not(self.in_charset(z3.SubString(s.e, n - 1, 1), cs))), r.e == s.e))
         if left and right:
-            # when everything is strippable r is empty (otherwise p/q split is ambiguous but r fixed)
-            pass
-        cache = dict(cache)
-        cache[key] = r
-        st.ghost['__strip_cache__'] = cache
+            st.assume(z3.Implies(z3.And(n > 0, z3.Not(self.in_charset(z3.SubString(s.e, 0, 1), cs)),
+                                        z3.Not(self.in_charset(z3.SubString(s.e, n - 1, 1), cs))), r.e == s.e))
+        # cross-variant lemma (same side(s), nested character sets C1 <= C2): if the C1-stripped
+        # string already has non-C2 ends, stripping C2 gives the same result.  Instantiated for
+        # the family {Unicode whitespace, ' '} on the same argument term.
+        if not getattr(self, '_in_variant', False):
+            self._in_variant = True
+            try:
+                for other in (None, ' '):
+                    ocs = self.PY_WS if other is None else list(other)
+                    if set(ocs) == set(cs):
+                        continue
+                    if not (set(ocs) <= set(cs) or set(cs) <= set(ocs)):
+                        continue
+                    ro = self.strip_like(st, s, other, left, right)
+                    small_r, big_r, big = (ro.e, r.e, cs) if set(ocs) <= set(cs) else (r.e, ro.e, ocs)
+                    ln = z3.Length(small_r)
+                    conds = [ln > 0]
+                    if left:
+                        conds.append(z3.Not(self.in_charset(z3.SubString(small_r, 0, 1), big)))
+                    if right:
+                        conds.append(z3.Not(self.in_charset(z3.SubString(small_r, ln - 1, 1), big)))
+                    st.assume(z3.Implies(z3.And(*conds), big_r == small_r))
+            finally:
+                self._in_variant = False
+        if self.exact_strip:
+            C = self.ws_re(cs)
+            p = z3.String(fresh_name('sp')) if left else z3.StringVal('')
+            q = z3.String(fresh_name('sq')) if right else z3.StringVal('')
+            st.assume(s.e == z3.Concat(p, r.e, q))
+            if left:
+                st.assume(z3.InRe(p, z3.Star(C)))
+            if right:
+                st.assume(z3.InRe(q, z3.Star(C)))
         return r
 
     def str_method(self, st, s, name, args, line, node=None):
